@@ -1,6 +1,7 @@
 """C05 -- mesh builders put every ring where documented."""
 import meshprop, meshoracle, mathprop, vlib
 RUN_TARGETS = ['Run/MeshOps.vo']
+WITNESS = ['Props/Witness.vo']     # non-vacuity examples for the conditional theorems (built with the property)
 TRUSTED = ['hand model coq/Geom/Dim3.v tied by the differential run (faces identical, points within 1e-9; trig from the hook)',
            'ring/cap oracles props/meshoracle.py on implementation output (exploration)']
 ASSUMPTIONS = ['profiles simple and clockwise', 'known finding C03 (near-collinear vertex configurations) is inherited by end caps']
